@@ -466,9 +466,42 @@ def layout_variants(cases, tier):
     return out
 
 
+def zero_extent_cases(tier):
+    """empty operands (an empty batch): backward completes, every gradient has its operand's shape, and operands that are not empty get
+    the (zero / neutral) VJP"""
+    f = F()
+    cs = []
+
+    def add(name, key, leaves, build):
+        cs.append(VCase(name, dict(key, op=name, zero_extent=True), leaves, build))
+    for sh in [(0,), (0, 3), (2, 0), (2, 0, 3)]:
+        n = len(sh)
+        add("functional.add", {"shapes": [sh, sh[-1:]]}, [Leaf("a", sh), Leaf("b", sh[-1:])], lambda T, K: f.add(T["a"], T["b"]))
+        # (a 0-d partner would need ndarray.sum of an empty object array to return a 0-d array; NumPy returns the int 0 there, a symbolic-run artefact)
+        add("functional.mul", {"shapes": [sh, (1,)]}, [Leaf("a", sh), Leaf("b", (1,))], lambda T, K: f.mul(T["a"], T["b"]))
+        add("functional.exp", {"shape": sh}, [Leaf("a", sh)], lambda T, K: f.exp(T["a"]))
+        for dim in [None] + list(range(-n, n)):
+            add("functional.sum", {"shape": sh, "dim": dim}, [Leaf("a", sh)], lambda T, K, dim=dim: f.sum(T["a"], dim))
+        add("functional.flatten", {"shape": sh, "start": 0, "end": -1}, [Leaf("a", sh)], lambda T, K: f.flatten(T["a"]))
+        if n >= 2:
+            add("functional.flatten", {"shape": sh, "start": 1, "end": -1}, [Leaf("a", sh)], lambda T, K: f.flatten(T["a"], 1))
+            add("functional.transpose", {"shape": sh, "dim0": 0, "dim1": -1}, [Leaf("a", sh)], lambda T, K: f.transpose(T["a"], 0, -1))
+        add("functional.unsqueeze", {"shape": sh, "dim": 0}, [Leaf("a", sh)], lambda T, K: f.unsqueeze(T["a"], 0))
+        add("functional.reshape", {"shape": sh, "target": sh[::-1]}, [Leaf("a", sh)], lambda T, K, sh=sh: f.reshape(T["a"], sh[::-1]))
+        add("functional.stack", {"shape": sh, "count": 2, "dim": 0}, [Leaf("a", sh), Leaf("b", sh)], lambda T, K: f.stack([T["a"], T["b"]], 0))
+    add("functional.concat", {"shapes": [(0, 3), (2, 3)], "dim": 0}, [Leaf("a", (0, 3)), Leaf("b", (2, 3))], lambda T, K: f.concat([T["a"], T["b"]], 0))
+    add("functional.matmul", {"shapes": [(0, 3), (3, 2)]}, [Leaf("a", (0, 3)), Leaf("b", (3, 2))], lambda T, K: f.matmul(T["a"], T["b"]))
+    add("functional.matmul", {"shapes": [(2, 0), (0, 2)]}, [Leaf("a", (2, 0)), Leaf("b", (0, 2))], lambda T, K: f.matmul(T["a"], T["b"]))
+    add("functional.addmm", {"shapes": [(2,), (0, 3), (3, 2)]}, [Leaf("a", (2,)), Leaf("b", (0, 3)), Leaf("c", (3, 2))], lambda T, K: f.addmm(T["a"], T["b"], T["c"]))
+    for ix, tag in [(SL(0, 0), "empty slice"), ([], "empty list"), (SL(3, 1), "reversed bounds"), ((SL(None), SL(2, 2)), "empty column slice")]:
+        add("Tensor.__getitem__", {"shape": (4, 3), "index": index_repr(ix), "kind": tag}, [Leaf("a", (4, 3))], lambda T, K, ix=ix: T["a"][ix])
+    add("functional.unbind", {"shape": (0, 3), "dim": 1, "root": 0}, [Leaf("a", (0, 3))], lambda T, K: f.unbind(T["a"], 1)[0])
+    return cs
+
+
 def all_cases(tier="quick"):
     cases = []
-    for g in (binary_cases, matmul_cases, unary_cases, slice_cases, join_cases, reduce_cases, view_cases):
+    for g in (binary_cases, matmul_cases, unary_cases, slice_cases, join_cases, reduce_cases, view_cases, zero_extent_cases):
         cases.extend(g(tier))
     cases.extend(layout_variants(cases, tier))
     return cases
